@@ -103,7 +103,7 @@ prop('C03', COMMON +
       'Pending implies in the schedule and a thread asked (TOK-pending)', 'dormant handshake and fetch loop (ORD-C03-dormant, ORD-C10-fetch, TRY)', 'no job dropped or run twice (QD-*, TOK-requeue)', 'blocked sync callers stay registered until they leave and are told on every reschedule (QD-waiters)', 'wakers resume parked queues (PARK-wake)'],
      ['that a woken pool thread is eventually scheduled by the OS', 'quiescence of a whole program'],
      [(RP.tok_leak, None), (RP.pa_rules, {'PA-stuck', 'PA'}), (RP.tok_resched, None), (RP.tok_pending, None), (RP.tok_requeue, None), (RQ.qd_queue, None), (RQ.qd_schedule, None), (RQ.qd_once, None),
-      (RL.try_rule, None), (RO.c03_dormant, None), (RO.c10_fetch, None), (RP.park_wake, None), (RQ.qd_wake_blocked, None), (RP.tr_roles, None), (RP.tr_dead, None), (RQ.qd_run, None), (RO.c10_thread, None), (RO.rs_strength, None, ['SchedulerCore'])])
+      (RL.try_rule, None), (RO.c03_dormant, None), (RO.c10_fetch, None), (RP.park_wake, None), (RQ.qd_wake_blocked, None), (RP.tr_roles, None), (RP.tr_dead, None), (RQ.qd_run, None), (RO.c10_thread, None), (RO.rs_strength, None, ['SchedulerCore']), (RU.ua_leak, None)])
 
 prop('C04', COMMON +
      'Decided: the sync strategy is chosen in one critical section and waits only when somebody owns or will wake the queue (TR-defer); the condition-variable handshake of the blocked caller (CV1, CV2); '
@@ -137,7 +137,7 @@ prop('C07', COMMON +
      ['check-and-register / set-and-take atomic (LW1, LW2, LW-owner)', 'signal once, after completion (ORD-C07-signal)', 'job owned by the queue (ORD-C07-own)', '.sync() waits on the queue (ORD-C07-syncwait)', 'poll never defers on Idle/Pending (TR-defer)',
       'abandoned poll-side drain is taken over; the real waker is installed only after the queue is parked (PARK-wake, ORD-C06-drain)', 'poll-side drain holds and releases the token (TOK-exec, TOK-leak)', 'the awaiting task is woken with no internal lock held (BL)'],
      ['equality of the delivered value with what the user closure computed', 'ordering of sibling polls as executions'],
-     [(RW.lw, None, ['|waker']), (RW.lw_owner, None), (RW.lw_cancel, None), (RW.lw_register, None, ['SchedulerFuture']), (RO.c07_signal, None), (RO.c07_own, None), (RO.c07_syncwait, None), (RP.tr_defer, None, ['SchedulerFuture::poll']), (RP.park_wake, None), (RO.c06_drain, None, ['drain_queue', 'DW-table', 'DoubleWaker']), (RP.tok_exec, None), (RP.tok_leak, None, ['SchedulerFuture']), (RL.bl, None), (RQ.qd_run, None, ['FutureJob', 'UnsafeJob::run']), (RO.free_delegates, None, ['future_desync|', 'FutureId'])] + G_POOL)
+     [(RW.lw, None, ['|waker']), (RW.lw_owner, None), (RW.lw_cancel, None), (RW.lw_register, None, ['SchedulerFuture']), (RO.c07_signal, None), (RO.c07_own, None), (RO.c07_syncwait, None), (RP.tr_defer, None, ['SchedulerFuture::poll']), (RP.park_wake, None), (RO.c06_drain, None, ['drain_queue', 'DW-table', 'DoubleWaker']), (RP.tok_exec, None), (RP.tok_leak, None, ['SchedulerFuture']), (RL.bl, None), (RQ.qd_run, None, ['FutureJob', 'UnsafeJob::run']), (RO.free_delegates, None, ['future_desync|', 'FutureId']), (RU.ua_leak, None)] + G_POOL)
 
 prop('C08', COMMON +
      'Decided (ORD-C08): the two oneshot channels of future_sync are split so that the slot job holds the queue-ready sender and the task-finished receiver and the SyncFuture the opposite ends; the slot job announces, waits, then signals, also when cancelled; '
@@ -145,7 +145,7 @@ prop('C08', COMMON +
      'SyncFuture drops the user future before the completion sender and has no Drop impl; the slot is reserved at call time (ORD-C02-append).',
      ['channel pairing, slot job order, SyncFuture state order, field drop order (ORD-C08)', 'slot reserved at call time (ORD-C02-append)', 'signal after completion, once (ORD-C07-signal)', 'the cancel wake-up reaches the queue even when it is being drained by a polling task (ORD-C06-drain, PARK-wake)'],
      ['deadlock-freedom of nested awaits as executions', 'that a mid-operation drop happens "before any later operation begins" follows from drop order + slot job order but is a statement about executions'],
-     [(RO.c08, None), (RO.c02_append, None), (RO.c07_signal, None), (RO.c06_drain, None, ['drain_queue', 'DW-table', 'DoubleWaker']), (RP.park_wake, None), (RL.bl, None), (RO.free_delegates, None, ['future_sync|'])] + G_EXCL + G_POOL)
+     [(RO.c08, None), (RO.c02_append, None), (RO.c07_signal, None), (RO.c06_drain, None, ['drain_queue', 'DW-table', 'DoubleWaker']), (RP.park_wake, None), (RL.bl, None), (RO.free_delegates, None, ['future_sync|']), (RU.ua_leak, None)] + G_EXCL + G_POOL)
 
 prop('C09', COMMON +
      'Decided: a Busy outcome of try_sync has written nothing (every path to Err(Busy) leaves the token untouched: TOK-leak); try_sync never reaches a blocking primitive except the bounded join of finished threads (ORD-C09-noblock); '
@@ -180,7 +180,7 @@ prop('C13', COMMON +
      'QueueResumer has no Drop impl and resume consumes it. "Later work waits, then continues in order" is derived from the C01/C02/C06 rules for a job that stays Pending (TOK-requeue, QD-queue, PARK-wake).',
      ['suspend job shape (ORD-C13)', 'a Pending job keeps the queue and is resumed by its waker (TOK-requeue, QD-queue, PARK-wake)', 'sync callers that pile up behind a suspension each stay registered for the wake-up (QD-waiters)'],
      ['all dynamic content: this is the thinnest claim; order of held operations after resumption is derived, not separately decided'],
-     [(RO.c13, None), (RP.park_wake, None), (RQ.qd_wake_blocked, None)] + G_ORDER + G_POOL)
+     [(RO.c13, None), (RP.park_wake, None), (RQ.qd_wake_blocked, None), (RU.ua_leak, None)] + G_ORDER + G_POOL)
 
 prop('C14', COMMON +
      'Decided: the four lifetime-erasure obligations — a sync caller does not return before its lifetime-erased job has been run and dropped (UA-wait), the payload pointer is dereferenced only inside jobs of the object\'s own queue (UA-confine), '
@@ -188,7 +188,7 @@ prop('C14', COMMON +
      'every unsafe operation is of an audited kind (UA-sites). Thorough tier adds compile-fail witnesses with compiling twins (W).',
      ['sync waits for its erased job (UA-wait)', 'pointer confined to jobs of the own queue (UA-confine)', 'the future built from &mut T in future_sync is destroyed before the slot is released (UA-borrow)', 'freed once, in the final job, ordered last (UA-free, ORD-C05-drop, TR-immediate)', 'Send/\'static bounds (UA-bounds, W)', 'unsafe sites enumerated (UA-sites)', 'a queue whose runner unwound may still hold lifetime-erased jobs pointing into the unwound frame: it is marked Panicked (TOK-guard) and never run again (TR-dead, ORD-C15-refuse)'],
      ['memory safety of executions as such', 'soundness of `Desync: Sync` rests on exclusion and on drop being ordered last: the C01/C02 rules are run as part of this check, their undecided clauses remain undecided here'],
-     [(RU.ua_wait, None), (RU.ua_confine, None), (RU.ua_borrow, None), (RU.ua_free, None), (RO.c05_drop, None), (RO.c08, None, ['drop-order']), (RU.ua_bounds, None), (RU.ua_sites, None), (RP.tr_dead, None), (RG.c15_refuse, None), (RG.tok_guard, None)] + G_EXCL + G_ORDER)
+     [(RU.ua_wait, None), (RU.ua_confine, None), (RU.ua_borrow, None), (RU.ua_free, None), (RU.ua_leak, None), (RO.c05_drop, None), (RO.c08, None, ['drop-order']), (RU.ua_bounds, None), (RU.ua_sites, None), (RP.tr_dead, None), (RG.c15_refuse, None), (RG.tok_guard, None)] + G_EXCL + G_ORDER)
 
 prop('C15', COMMON +
      'Decided: an ActiveQueue guard is live in some frame of every call path to every execution site, so unwinding marks the queue (TOK-guard); its Drop marks only while panicking (AQ-drop); nothing leaves Panicked (TR-dead); '
